@@ -20,7 +20,7 @@ ASSUMPTIONS = ["'never iterates forever' is decided in its bounded form: a solve
                "stopping-ness and absorbing finals are decided by the oracle's MEC test, never assumed from the generator"]
 TIMEOUT = 1800
 TABLE = [("G-DEAD", 900), ("G-CYC", 600), ("G-SLOW", 150), ("G-ACY", 500), ("G-LEX", 200), ("G-TIE", 150), ("G-TINY", 200),
-         ("G-CUT", 300)]
+         ("G-CUT", 300), ("G-TINYB", 300), ("G-INIT0F", 200)]
 
 
 def gen_cut(rng):
@@ -60,7 +60,7 @@ def decide(gd, idx, cls):
     try:
         if not (an.stopping and an.finals_absorbing):
             return sc.skipped(idx, "not a stopping game with absorbing finals")
-        tmax = float(max(an.tmax))
+        tmax = float(an.tmax_solve)
         W = an.W
         v = an.reach["v"]
     except OracleInconclusive as e:
@@ -116,7 +116,7 @@ def decide(gd, idx, cls):
         elif out.status == "budget":
             d = out.diag or {}
             try:
-                rmax = float(max(oracle.opt_total(g, opt1="max", opt2="max")["v"]))
+                rmax = float(an.rmax_solve(prune))
             except OracleInconclusive:
                 rmax = None
             if rmax is not None and d.get("max_expected_rewards", 0) > 2 * rmax + 1:
